@@ -506,6 +506,62 @@ Proof.
   vm_compute. repeat split; auto 10.
 Qed.
 Print Assumptions C07_delivered_needs_noraise_refuted.
+
+(* 5m.8 Short sessions: the hypotheses on B's message labels hold by themselves.  The sender's half:
+      A gives its j-th message the sequence number wire j and every copy of it — in the queue, in the
+      re-send store, inside a RetrySender, in any datagram on the wire — carries the (type, payload)
+      of the j-th message (ghost table T, MsgSeqP.TInv: it holds initially and is preserved together
+      with J3).  So while A has created at most HALF messages (stats.sent <= HALF) and consumed at
+      most HALF + 1 datagram numbers, with every message B processes labelled by its OWN wire number
+      (js = map w_seq (dg_msgs d)), (label), (msg-near), (truthful) and — as in C07_short_sessions —
+      (near), (fresh) are automatic: (auth), (no-raise) and unfragmented traffic (short3_ev) suffice. *)
+From Proofs Require Import MsgSeqP.
+
+Theorem C07_msg_table_fresh : TInv mnet0.
+Proof. exact TInv_mnet0. Qed.
+Print Assumptions C07_msg_table_fresh.
+
+Theorem C07_short_sessions_msg : forall e S K vs M,
+  0 <= e_max_payload e -> J3 S K M -> TInv M -> short3_run e M vs ->
+  wf3_run e M vs /\ J3 S K (mrun e M vs) /\ TInv (mrun e M vs).
+Proof.
+  intros e S K vs M He HJ HT Hs. split; [eapply short3_run_wf3; eassumption|eapply short3_run_inv; eassumption].
+Qed.
+Print Assumptions C07_short_sessions_msg.
+
+Theorem C07_short_success_means_delivered : forall e S K M vs x l js a' o id,
+  0 <= e_max_payload e -> J3 S K M -> TInv M -> short3_run e M (vs ++ [((NA x, l), js)]) ->
+  let M' := mrun e M vs in
+  step e (nA (g_net (m_g M'))) x = (a', o) -> In (OCallback id true) o ->
+  exists p i dA w,
+    In (p, id) (m_sent M') /\ In p (dlvB (g_net (m_g M'))) /\
+    In (i, dA) (g_AB (m_g M')) /\ In dA (wAB (g_net (m_g M'))) /\ In dA (g_accB (m_g M')) /\
+    In w (dg_msgs dA) /\ w_type w = APP /\ w_payload w = p.
+Proof. exact short_success_means_delivered. Qed.
+Print Assumptions C07_short_success_means_delivered.
+
+(*    ... the sender half spelled out on the wire: two messages with the same message sequence number
+      in datagrams A has emitted are the same message (a retransmitted copy carries the SAME number
+      and the SAME payload; different messages carry different numbers) *)
+Theorem C07_retransmission_same : forall M i d w i' d' w',
+  TInv M -> c_sent (nA (g_net (m_g M))) <= HALF ->
+  In (i, d) (g_AB (m_g M)) -> In w (dg_msgs d) -> In (i', d') (g_AB (m_g M)) -> In w' (dg_msgs d') ->
+  w_seq w = w_seq w' -> w_type w = w_type w' /\ w_payload w = w_payload w'.
+Proof. exact retransmission_same. Qed.
+Print Assumptions C07_retransmission_same.
+
+(* non-vacuity: the handshake history above, labelled with the wire numbers, is a short session *)
+Example C07_short_sessions_msg_example :
+  TInv mnet0 /\ short3_run env_n mnet0 (hm ++ [((NA xn6, 0), [])]).
+Proof.
+  split; [exact TInv_mnet0|].
+  unfold hm, hm1, hm2, hm3, hm4, hm5, lab, hn1, hn2, hn3, hn4, hn5, xn6. cbn [combine app short3_run].
+  unfold short3_ev. cbn [fst snd auth_ev ev_open2].
+  repeat match goal with |- _ /\ _ => split | |- True => exact I end;
+    try (match goal with |- _ <= _ => vm_compute; discriminate end).
+  all: try (msg_goal; try (split; vm_compute; reflexivity)).
+  all: ev_goal. all: fin_goal.
+Qed.
 (* ---- end block: message level ---- *)
 
 (* Invariant used by 1 (fragment sender contexts kept in pending_fragments are never complete):
